@@ -135,6 +135,45 @@ fn single_literal_change(orig: &Value, cor: &Value) -> Option<(&'static str, usi
     found
 }
 
+/// same document except (possibly) inside "settings", which must still be an object
+/// with the same keys and value types (a well-formed settings block)
+fn differs_only_in_settings(orig: &Value, cor: &Value) -> bool {
+    let (Some(o), Some(c)) = (orig.as_object(), cor.as_object()) else {
+        return false;
+    };
+    if o.len() != c.len() {
+        return false;
+    }
+    for (k, ov) in o {
+        let Some(cv) = c.get(k) else { return false };
+        if k == "settings" {
+            let (Some(os), Some(cs)) = (ov.as_object(), cv.as_object()) else {
+                return false;
+            };
+            if os.len() != cs.len() || ov == cv {
+                return false;
+            }
+            for (sk, sv) in os {
+                match cs.get(sk) {
+                    Some(x) => {
+                        let same_type = (sv.is_boolean() && x.is_boolean())
+                            || (sv.is_string() && x.is_string())
+                            || (sv.is_u64() && x.is_u64())
+                            || (sv.is_f64() && x.is_number() && x.as_f64().map(|v| v.is_finite()).unwrap_or(false));
+                        if !same_type {
+                            return false;
+                        }
+                    }
+                    None => return false,
+                }
+            }
+        } else if ov != cv {
+            return false;
+        }
+    }
+    true
+}
+
 fn mat_from_json(v: &Value) -> Option<Mat> {
     Some(Mat {
         m: v.get("m")?.as_u64()? as usize,
@@ -313,7 +352,7 @@ pub fn run(tier: Tier) -> RunOutcome {
                             } else {
                                 r.clone()
                             };
-                            if let Some(d) = sn.diff_bitwise(&proj) {
+                            if let Some(d) = sn.diff_numeric(&proj) {
                                 out.violations.push(Violation::new(
                                     "C19.loaded_solve_differs",
                                     format!("equilibration off: solve of the loaded problem differs from the original: {}", d),
@@ -377,6 +416,49 @@ pub fn run(tier: Tier) -> RunOutcome {
             }
             LoadOutcome::Err(e) => out.violations.push(Violation::new("C19.intact_file_rejected", e)),
             LoadOutcome::Panic(p) => out.violations.push(Violation::new("C19.load_panic", p)),
+        }
+    }
+
+    // (3b) ... also when the stored settings block is itself unusable in this build
+    // (written by a build with another backend, or damaged): the argument replaces it
+    {
+        let mut other = with_sim(|s| gen_settings(&mut s.cs, false));
+        other.max_iter = 5;
+        for (key, val) in [
+            ("direct_solve_method", Value::String("faer".to_string())),
+            ("direct_solve_method", Value::String("no-such-method".to_string())),
+            ("direct_kkt_solver", Value::Bool(false)),
+        ] {
+            let mut d2 = doc.clone();
+            d2["settings"][key] = val.clone();
+            let p2 = work_file("settings_variant.json");
+            std::fs::write(&p2, serde_json::to_vec(&d2).unwrap()).expect("write");
+            probe("c19_stored_settings_unusable_with_override");
+            let mut f = File::open(&p2).expect("open");
+            match load_file(&mut f, Some(other.clone())) {
+                LoadOutcome::Ok(s3) => {
+                    if format!("{:?}", s3.settings) != format!("{:?}", other) {
+                        out.violations.push(Violation::new(
+                            "C19.settings_override_ignored",
+                            format!("stored {}={} with a settings argument: loaded solver does not carry the argument", key, val),
+                        ));
+                    }
+                }
+                LoadOutcome::Err(e) => out.violations.push(Violation::new(
+                    "C19.settings_override_ignored",
+                    format!("stored {}={}: the settings argument should replace the stored block, but load failed: {}", key, val, e),
+                )),
+                LoadOutcome::Panic(p) => out.violations.push(Violation::new("C19.load_panic", p)),
+            }
+            // without the argument the stored block is used: error, never a panic
+            let mut f = File::open(&p2).expect("open");
+            if let LoadOutcome::Panic(p) = load_file(&mut f, None) {
+                out.violations.push(Violation::new(
+                    "C19.load_panic",
+                    format!("stored {}={}: load_from_file panicked: {}", key, val, p),
+                ));
+            }
+            std::fs::remove_file(&p2).ok();
         }
     }
 
@@ -564,6 +646,30 @@ pub fn run(tier: Tier) -> RunOutcome {
             continue;
         }
         probe(kind_name(f));
+        // a corruption confined to the stored settings block is irrelevant when the
+        // caller supplies settings: the load must succeed with the caller's settings
+        if let Ok(cv) = serde_json::from_slice::<Value>(&cor) {
+            if differs_only_in_settings(&doc, &cv) {
+                with_sim(|s| s.probe("c19_settings_only_corruption_with_override"));
+                std::fs::write(&fpath, &cor).expect("write work file");
+                let mut fh = File::open(&fpath).expect("open work file");
+                match load_file(&mut fh, Some(settings.clone())) {
+                    LoadOutcome::Ok(s3) => {
+                        if format!("{:?}", s3.settings) != format!("{:?}", settings) {
+                            out.violations.push(Violation::new(
+                                "C19.settings_override_ignored",
+                                format!("{:?}: loaded solver does not carry the supplied settings", f),
+                            ));
+                        }
+                    }
+                    LoadOutcome::Err(e) => out.violations.push(Violation::new(
+                        "C19.settings_override_ignored",
+                        format!("{:?} damaged only the stored settings, a settings argument was supplied, yet load failed: {}", f, e),
+                    )),
+                    LoadOutcome::Panic(p) => out.violations.push(Violation::new("C19.load_panic", format!("{:?}: {}", f, p))),
+                }
+            }
+        }
         let r = load_bytes(&fpath, &cor);
         match r {
             LoadOutcome::Panic(p) => {
